@@ -1079,21 +1079,31 @@ def rule_r4(chk, prog):
     for y in ys:
         facts = facts_at(ss, y)
         v = y.value
-        # slice must strictly shorten under the length guard
+        # slice must strictly shorten under the length guard; the sliced
+        # name is the text of the symbol: a parameter, or <parameter>.data
+        vn = unparse(v.value) if isinstance(v, ast.Subscript) and isinstance(
+            v.value, ast.Name) else None
+        ps_ = [a.arg for a in ss.args.args if a.arg != 'self']
+        is_text = vn in ps_ or any(
+            isinstance(st_, ast.Assign) and any(
+                isinstance(t_, ast.Name) and t_.id == vn
+                for t_ in st_.targets) and isinstance(
+                    st_.value, ast.Attribute) and st_.value.attr == 'data'
+            and isinstance(st_.value.value, ast.Name)
+            and st_.value.value.id in ps_ for st_ in ast.walk(ss))
         k = None
         for (t, p) in facts:
-            if p and t.startswith('len(sym) > '):
+            if p and vn and t.startswith(f'len({vn}) > '):
                 try:
                     k = max(k or 0, int(t.split('>')[1]))
                 except ValueError:
                     pass
-        ok = k is not None and isinstance(v, ast.Subscript) and isinstance(
-            v.slice, ast.Slice) and unparse(v.value) == 'sym'
+        ok = k is not None and vn is not None and is_text and isinstance(
+            v.slice, ast.Slice)
         if ok:
-            lo, hi = v.slice.lower, v.slice.upper
             t = unparse(v.slice)
-            # sym[:len//2] needs len>=2 to be non-empty, sym[:-1]/[1:] len>=2
-            ok = k >= 1 and t in (':len(sym) // 2', ':-1', '1:')
+            # v[:len//2] needs len>=2 to be non-empty, v[:-1]/[1:] len>=2
+            ok = k >= 1 and t in (f':len({vn}) // 2', ':-1', '1:')
         chk.check('C03.R4', 'mutators_smtlib.SimplifySymbolNames.__simpler',
                   y, ok, 'a "simpler" name is not a strictly shorter, '
                   'non-empty slice under a length guard', loc=ms.loc(y),
